@@ -34,7 +34,8 @@ EXTENDS FileTableObs, TLC, Json
 CONSTANTS MaxTime,    \* clock horizon (slots)
           MaxEnv,     \* environment edits per behaviour
           MaxForce,   \* reload events per behaviour
-          EnvKinds,   \* subset of {"put","putbad","putold","trunc","app","rm","dir","loop","unread"}
+          EnvKinds,   \* subset of {"put","putbad","putold","trunc","app","rm","dir","loop","unread"} (edits of the
+                      \* file the environment may make) plus "close" (Close may be called), "slow" (time may pass inside reload())
           InitKinds,  \* subset of {"good","none","bad","dir","loop","unread"}: what the path is at start-up
           OldStamps,  \* mtimes a "putold" may carry, as slot + 20 (a cfg file cannot hold negative numbers)
           Devs,
@@ -116,6 +117,7 @@ MInit ==
 (***************************************************************************)
 Tick ==
   /\ pc \notin {"new", "failed"} /\ now < MaxTime /\ ~done
+  /\ (Busy => "slow" \in EnvKinds)        \* time may pass between two calls of reload()
   /\ now' = now + 1
   /\ IF Alive /\ now + 1 = nextTick
      THEN /\ nextTick' = nextTick + K
@@ -285,6 +287,7 @@ EForce ==
   /\ AFrame /\ UNCHANGED closing
 EClose ==
   /\ pc \in {"idle", "stat1", "open", "read", "stat2", "dead"} /\ closing = "no" /\ ~done
+  /\ "close" \in EnvKinds
   /\ IF pc = "idle" THEN pc' = "stopped" /\ closing' = "done"
      ELSE closing' = "called" /\ UNCHANGED pc
   /\ Emit([a |-> "Close"])
@@ -292,8 +295,9 @@ EClose ==
 
 End ==
   /\ pc \in {"idle", "dead", "stopped", "failed"} /\ ~done
+  /\ (~Gen \/ now = MaxTime \/ pc = "failed" \/ closing = "done")   \* generated behaviours use the whole horizon
   /\ done' = TRUE
-  /\ Emit([a |-> "End"])
+  /\ Emit([a |-> "End", leak |-> FALSE])
   /\ UNCHANGED <<now, nextTick, file, usedM, nver, wv, fd, pc, rdPos, buf, st1, tickPending, forced, closing,
                  tbl, stamp, envLeft, forceLeft, panicked, devUsed>>
 
@@ -307,9 +311,11 @@ Act ==
 Fold(o, e) == ObsLook(ObsEv(o, e.a, e), LookOf(tbl', Parked', forced', closing', panicked'))
 
 Next ==
-  \/ /\ Act
+  \/ /\ (Gen => obs.viol = {})            \* a generated behaviour ends at the first violation (as-is runs)
+     /\ Act
      /\ obs' = IF pc' = "failed" THEN ObsEv(obs, last'.a, last') ELSE Fold(obs, last')
-     /\ IF Gen /\ done' THEN PrintT(<<"BEH", ToJson([hist |-> hist'])>>) ELSE TRUE
+     /\ IF Gen /\ (done' \/ obs'.viol # {})
+        THEN PrintT(<<"BEH", ToJson([cfg |-> [K |-> K], hist |-> hist', viol |-> obs'.viol])>>) ELSE TRUE
   \/ (done /\ ~Gen /\ UNCHANGED vars)
 
 Spec == Init /\ [][Next]_vars
